@@ -1,4 +1,5 @@
 # C13 — each received datagram is accounted for and published at most once.
+import vf
 from props.c12 import P as C12
 
 
@@ -19,8 +20,84 @@ class P(C12):
                 sum(cb[x] - ca[x] for x in missing), bytes.fromhex(missing[0])[:120])
         return None
 
+    def extra(self, tier, rng, known):
+        """the RECEIVE LOOPS themselves (run() of the four pipelines), which the pipeline driver only emulates: the built binary on real
+        UDP sockets; datagrams of every length from 0 octets up, decodable and not, paced so that the loopback loses none; then
+        the counters of the /flow status page and the lines the raw-socket sink got"""
+        import json, os, shutil, signal, socket, tempfile, time
+        from props import c15, sfgen, c08
+        from props.flowgen import Gen, load_model, TEST_EXT
+        rc, out = vf.sh(["go", "build", "-o", os.path.join(vf.HARNESS, "bin", "vflow"), "./vflow/"], cwd=vf.REPO, env=vf.GOENV, timeout=900)
+        if rc != 0:
+            return {"violations": [{"cases": [], "no_failing_input": True, "verdict": "vflow binary does not build: " + out[-300:]}], "coverage": {}}
+        dump = vf.run_impl(["infomodel builtin"], shards=1)[0]
+        model = {k: v for k, v in load_model(dump).items() if k[0] == 0 and k != (0, 0)}
+        for k in TEST_EXT:
+            model.pop(k, None)
+        d = tempfile.mkdtemp(prefix="verif-acct-", dir=os.path.join(vf.ROOT, ".build"))
+        sink = c15.Sink()
+        viol, cov = [], {}
+        try:
+            col = c15.Collector(d, sink.port)
+            if not col.start():
+                return {"violations": [{"cases": [], "verdict": "collector did not start"}], "coverage": {}}
+            sock = socket.socket(socket.AF_INET, socket.SOCK_DGRAM); sock.bind(("127.0.0.1", 0))
+            sent = {"ipfix": [], "nf9": [], "nf5": [], "sflow": []}      # (payload, decodes, publishes)
+            rounds = 2 if tier == "quick" else 12
+            for r in range(rounds):
+                for proto in ("ipfix", "nf9"):
+                    g = Gen(proto, model, rng)
+                    t, o = g.rand_tpl(tid=256 + r, allow_var=False, opts=False, nfields=3)
+                    tmsg = g.enc_msg([g.enc_set(g.tpl_set_id(False), g.enc_tpl(t, False))])
+                    dmsg = g.enc_msg([g.enc_set(t.tid, g.rand_record(t)[0])], seq=r + 1)
+                    sent[proto] += [(tmsg, True, False), (dmsg, True, True), (b"", False, False), (bytes(3), False, False),
+                                    (g.enc_msg([g.enc_set(9000 + r, bytes(8))]), True, False), (b"", False, False)]
+                v5 = c08.PROP.packet(rng, 2)
+                sent["nf5"] += [(v5, True, True), (b"", False, False), (bytes(3), False, False), (v5[:17], False, False), (c08.PROP.packet(rng, 1), True, True)]
+                sf = sfgen.gen_datagram(rng, kinds=["flow", "counter"])[0]
+                sent["sflow"] += [(sf, True, True), (b"", False, False), (bytes(5), False, False), (sfgen.gen_datagram(rng, kinds=["unknown"])[0], True, False)]
+            for proto, lst in sent.items():
+                for (pl, _, _) in lst:
+                    sock.sendto(pl, ("127.0.0.1", col.ports[proto])); time.sleep(0.004)
+            want = {p: (len(l), sum(1 for x in l if x[1]), sum(1 for x in l if x[2])) for p, l in sent.items()}
+            keys = {"ipfix": "IPFIX", "nf9": "NetflowV9", "nf5": "NetflowV5", "sflow": "SFlow"}
+            got = {}
+            t0 = time.time()
+            while time.time() - t0 < 6:
+                st = col.stats() or {}
+                got = {p: ((st.get(k) or {}).get("UDPCount"), (st.get(k) or {}).get("DecodedCount")) for p, k in keys.items()}
+                if all(got[p] == (want[p][0], want[p][1]) for p in want):
+                    break
+                time.sleep(0.1)
+            time.sleep(0.3)
+            with sink.lock:
+                published = len(sink.lines)
+            cov = {"e2e_datagrams_sent": {p: want[p][0] for p in want}, "e2e_counters": {p: list(got[p]) for p in got}, "e2e_published_lines": published}
+            for p in want:
+                if got.get(p) is None or got[p][0] is None:
+                    viol.append({"cases": [], "no_failing_input": True, "verdict": "the status page has no counters for " + p}); break
+                if got[p][0] != want[p][0]:
+                    lens = sorted(set(len(x[0]) for x in sent[p]))
+                    viol.append({"cases": ["%d %s datagrams sent to the real socket, of lengths %s (zero-length ones included)" % (want[p][0], p, lens)],
+                                 "verdict": "%s: %d datagrams were sent to the collector's UDP port (paced, loopback) and UDPCount is %s: received datagrams are not accounted for" % (p, want[p][0], got[p][0])}); break
+                if got[p][1] != want[p][1]:
+                    viol.append({"cases": [], "verdict": "%s: DecodedCount is %s, but %d of the %d datagrams sent decode successfully" % (p, got[p][1], want[p][1], want[p][0])}); break
+            tot_pub = sum(want[p][2] for p in want)
+            if not viol and published != tot_pub:
+                viol.append({"cases": [], "verdict": "%d messages reached the sink for %d datagrams that yield a record or sample" % (published, tot_pub)})
+            col.stop(signal.SIGTERM)
+        finally:
+            sink.close()
+            try:
+                if col.p and col.p.poll() is None:
+                    col.p.kill()
+            except Exception:
+                pass
+            shutil.rmtree(d, ignore_errors=True)
+        return {"violations": viol[:1], "coverage": cov, "notes": ["end-to-end accounting over the real receive loops: %s" % cov.get("e2e_datagrams_sent")]}
+
     def rule(self):
-        return C12.rule(self) + "; C13 compares UDPCount, DecodedCount and the multiplicity of every published payload (at most once, exactly once when it yields a record/sample; the queue holds 1000 messages and at most 300 are produced)"
+        return C12.rule(self) + "; C13 compares UDPCount, DecodedCount and the multiplicity of every published payload (at most once, exactly once when it yields a record/sample; the queue holds 1000 messages and at most 300 are produced). Plus the real receive loops: the built binary gets datagrams of 0, 3, 5, 30 ... octets and well-formed ones on its four UDP ports (paced), then UDPCount / DecodedCount of the status page and the lines at the sink are compared with what was sent"
 
     def assumptions(self):
         return C12.assumptions(self) + ["'decodes successfully' = Decode returned a message (possibly with a non-fatal error); for sFlow, SFDecode returned without error"]
